@@ -66,6 +66,21 @@ def callees(idx, f):
                     r2 = idx.resolve_expr(f.module, a, f.cls)
                     if r2 is not None:
                         add(r2)
+    # function values that escape in any other way (a dispatch table `(f, g, h)[n - 2]`, `handler = f if c else g`): address-taken functions are
+    # possible callees
+    local = {a.arg for a in ast.walk(f.node) if isinstance(a, ast.arg)} | {n.id for n in ast.walk(f.node) if isinstance(n, ast.Name) and isinstance(n.ctx, ast.Store)}
+    for n in ast.walk(f.node):
+        if isinstance(n, ast.Name) and isinstance(n.ctx, ast.Load) and n.id not in local:
+            r3 = idx.resolve_expr(f.module, n, f.cls)
+            if isinstance(r3, FuncInfo) and r3.key != f.key:
+                add(r3)
+            elif r3 is None and n.id in f.module.const_nodes and isinstance(f.module.const_nodes[n.id], (ast.Dict, ast.Tuple, ast.List)):
+                # a module-level table of functions (`_SUPPORTS = {Box: box_support, ...}; _SUPPORTS[type(c)](...)`)
+                for e in ast.walk(f.module.const_nodes[n.id]):
+                    if isinstance(e, ast.Name) and isinstance(e.ctx, ast.Load):
+                        r4 = idx.resolve_expr(f.module, e, None)
+                        if isinstance(r4, FuncInfo):
+                            add(r4)
     idx._callees[f.key] = out
     return out
 
